@@ -3,7 +3,9 @@ import Wayfind.Proofs.RouterBasics
 /-! # C19 — route-table errors carry the exact strings involved
 Payload half, on the model of `Router::{insert, delete, constraint}`: a conflict carries the template passed to
 insert; not-found and mismatch carry the template passed to delete; a duplicate-name error carries the name and the
-offered type name. (That the conflict list is exactly the sorted, duplicate-free list of colliding live templates is
+offered type name; an unknown-constraint error names a constraint that a part of the parsed template really uses
+and that the registry does not hold; a template error is the parser's error for exactly the text passed in (whose
+payload is C14). (That the conflict list is exactly the sorted, duplicate-free list of colliding live templates is
 C08; which live template a mismatch names is C09.)
 Status: **partial** — the rendered wording is not modelled; that every payload string occurs verbatim in the
 rendered message is checked on the implementation by the harness on every error of every run. -/
@@ -38,3 +40,59 @@ theorem C19_duplicate_name_payload (r : Router) (name ty n a b : Bytes)
     have : e.1 = name := by simpa using hp
     rw [← this, ← h2]; exact hm
   · cases h
+
+/-- an unknown-constraint error names a constraint that a part of some expansion of the template really uses and
+that is not in the registry -/
+theorem C19_unknown_constraint_payload (r : Router) (t : Bytes) (d : Nat) (c : Bytes)
+    (h : r.insert t d = .error (.unknownConstraint c)) :
+    ∃ ts, parseTemplates t = .ok ts ∧ (∃ e ∈ ts, ∃ p ∈ e.2, Part.consName p = some c) ∧
+      r.registry.any (·.1 == c) = false := by
+  unfold Router.insert at h
+  cases hp : parseTemplates t with
+  | error e => rw [hp] at h; cases h
+  | ok ts =>
+    rw [hp] at h
+    simp only at h
+    cases hf : firstUnknown (fun c => r.registry.any (·.1 == c)) ts with
+    | none =>
+      rw [hf] at h
+      simp only at h
+      split at h <;> cases h
+    | some c' =>
+      rw [hf] at h
+      injection h with h; injection h with h; subst h
+      refine ⟨ts, rfl, ?_, ?_⟩
+      · unfold firstUnknown at hf
+        have hm := List.mem_of_find?_eq_some hf
+        obtain ⟨e, he, hc⟩ := List.mem_flatMap.1 hm
+        obtain ⟨p, hp', hpc⟩ := List.mem_filterMap.1 hc
+        exact ⟨e, he, p, List.mem_reverse.1 hp', hpc⟩
+      · unfold firstUnknown at hf
+        have := List.find?_some hf
+        simpa using this
+
+/-- a template error returned by insert or delete is the parser's error for the text passed in -/
+theorem C19_template_error_is_parse_error (r : Router) (t : Bytes) (d : Nat) (e : TErr) :
+    (r.insert t d = .error (.template e) ↔ parseTemplates t = .error e) ∧
+    ((r.delete t).1 = .error (.template e) ↔ parseTemplates t = .error e) := by
+  constructor
+  · unfold Router.insert
+    cases hp : parseTemplates t with
+    | error e' => simp
+    | ok ts =>
+      simp only
+      constructor
+      · intro h
+        repeat' split at h
+        all_goals cases h
+      · intro h; cases h
+  · unfold Router.delete
+    cases hp : parseTemplates t with
+    | error e' => simp
+    | ok ts =>
+      simp only
+      constructor
+      · intro h
+        repeat' split at h
+        all_goals first | (cases h; done) | (rw [Router.deleteOk_fst] at h; split at h <;> cases h)
+      · intro h; cases h
